@@ -5,7 +5,7 @@
 From Coq Require Import List NArith ZArith Arith Bool.
 Import ListNotations.
 Require Import V.base.Fld V.base.ZpField V.model.LinAlg V.model.Poly V.model.Access V.model.Msp V.model.Kw V.model.Schemes.
-Require Import V.proofs.Span_proofs V.proofs.Msp_proofs V.proofs.Kw_proofs V.proofs.Families_proofs V.proofs.Gate_proofs V.proofs.Schemes_proofs.
+Require Import V.proofs.Span_proofs V.proofs.Msp_proofs V.proofs.Kw_proofs V.proofs.Families_proofs V.proofs.Gate_proofs V.proofs.Hier_proofs V.proofs.Schemes_proofs.
 
 (* ---- generic: every MSP (any matrix, any labelling — ideal or not), every field ------------- *)
 
@@ -140,6 +140,23 @@ Theorem C02_gate_flat_exact : forall F (K : fops F), flaws K -> forall (fromN : 
   accepts K m ids = tree_eval ids (Gate t (map Leaf leaves)).
 Proof. exact @gate_flat_exact. Qed.
 Print Assumptions C02_gate_flat_exact.
+
+(* hierarchical (Tassa / Birkhoff).  FULL STATEMENT (not proved — it needs Tassa's theorem on the
+   well-posedness of Birkhoff interpolation for the checked ID/level layouts):
+     induced_hier K fromN q levels = Some m -> (forall id, In id ids -> In id (msp_lab m)) ->
+       accepts K m ids = hier_eval ids [] levels.
+   Proved part: an ID list with fewer than t_1 holders of the first level is rejected
+   (first-level rows are scaled Vandermonde rows, lower levels vanish in the first t_1 columns). *)
+Theorem C02_hier_exact_partial : forall F (K : fops F), flaws K -> forall (fromN : N -> F) q t1 ps1 rest (m : msp) ids,
+  induced_hier K fromN q ((t1, ps1) :: rest) = Some m ->
+  hier_incr 0 ((t1, ps1) :: rest) ->
+  (forall id, In id ids -> In id (msp_lab m)) ->
+  (forall a b, In a ids -> In b ids -> In a ps1 -> In b ps1 -> fromN a = fromN b -> a = b) ->
+  (forall id, In id ids -> In id ps1 -> fromN id <> f0 K) ->
+  (card (interN ps1 ids) < t1)%nat ->
+  accepts K m ids = false.
+Proof. exact @hier_first_level_rejected. Qed.
+Print Assumptions C02_hier_exact_partial.
 
 (* ---- dedicated schemes ------------------------------------------------------------------------------------ *)
 
